@@ -1,7 +1,7 @@
 """Obligations for C11."""
 from oblib import ob
 
-BOUNDS = {"quick": "", "thorough": ""}
+BOUNDS = {'quick': 'Inside: AppendQuote on every byte string of length 1-3 for the 8 EscapeForHTML x EscapeForJS x AllowInvalidUTF8 settings (minimal literal, error iff disallowed invalid UTF-8, unquote round trip); ConsumeString/AppendUnquote/UnquoteMayCopy on every byte string of length 2-4 with and without UTF-8 validation, and on the skeletons "\\u????", "\\uD???\\uD???", "\\u????\\u??, "??\\u00??" (accept / truncated / invalid class, meaning, verbatim and canonical flag soundness); ReformatString on every byte string of length 3-4 for 6 option sets; the NeedEscape lemma (not NeedEscape(s) implies quoting s under every escape option is \'"\'+s+\'"\') on every byte string of length 1-3. Outside: longer strings.', 'thorough': 'As quick with lengths up to 4 (quote, NeedEscape), 5 (scan, reformat) and more skeletons with up to 8 symbolic bytes.'}
 ASSUMPTIONS = []
 
 
